@@ -409,6 +409,37 @@ def run(ctx, res):
                             res.violation(f"unit-value-differs:{fname}", {"arg": repr(arg), "unit": unit, "str": text, "back": [str(back.value), back.unit]}, case)
                     except Exception as e:
                         res.violation(f"unit-raised:{fname}", {"arg": repr(arg), "unit": unit, "exc": repr(e)}, case)
+        # decoding every spelling the ODF length form allows (what another producer writes): no integer part,
+        # no fraction digits after the point, leading and trailing zeros; the number read must be the number written
+        for whole, frac in [("0", "5"), ("", "5"), ("", "25"), ("", "05"), ("1", ""), ("12", "75"), ("007", "5"), ("", "125"), ("0", "50"), ("3", "0")]:
+            for sign in ("", "-"):
+                for point_form in ("plain", "no-int", "bare-point"):
+                    if point_form == "plain":
+                        if not whole or not frac:
+                            continue
+                        num = f"{whole}.{frac}"
+                    elif point_form == "no-int":
+                        if whole.strip("0") or not frac:
+                            continue
+                        num = f".{frac}"
+                    else:
+                        if frac or not whole:
+                            continue
+                        num = f"{whole}."
+                    for unit in ["cm", "mm", "in", "pt", "pc", "px"]:
+                        text = sign + num + unit
+                        if not LENGTH.match(text):
+                            continue
+                        res.judge()
+                        res.cls(("Unit-spelling", point_form, "neg" if sign else "pos", unit), True)
+                        case = {"codec": "Unit-spelling", "arg": _ser(text)}
+                        want = Decimal(sign + (num if num[0] != "." else "0" + num).rstrip("."))
+                        try:
+                            u = Unit(text)
+                            if u.value != want or u.unit != unit:
+                                res.violation(f"unit-spelling-decoded-wrong:{point_form}", {"s": text, "value": str(u.value), "unit": u.unit, "expected": str(want)}, case)
+                        except Exception as e:
+                            res.violation(f"unit-spelling-raised:{point_form}", {"s": text, "exc": repr(e)}, case)
     res.counters.update({"contract:" + k: v for k, v in K.COUNT.items()})
     res.counters.update({"unjudged-lenient:" + k: v for k, v in K.UNJUDGED.items()})
     res.sample({"Date": "0999-12-31", "near-miss": "PT1.5S", "colour": "#00FF7F"})
@@ -432,6 +463,17 @@ def replay(case):
             out.append({"mechanism": "unit-not-an-odf-length", "detail": {"str": str(u)}})
         return out
     arg = _deser(case["arg"])
+    if name == "Unit-spelling":
+        from decimal import Decimal
+        from odfdo.datatype import Unit
+        import re as _re
+
+        m = _re.match(r"(-?)([0-9]*)\.?([0-9]*)([a-z%]+)\Z", arg)
+        want = Decimal(f"{m.group(1)}{m.group(2) or '0'}.{m.group(3) or '0'}")
+        u = Unit(arg)
+        if u.value != want or u.unit != m.group(4):
+            out.append({"mechanism": "unit-spelling-decoded-wrong", "detail": {"s": arg, "value": str(u.value), "unit": u.unit}})
+        return out
     if name == "Unit":
         from odfdo.datatype import Unit
 
